@@ -140,7 +140,7 @@ impl<'a, W: Write> Driver<'a, W> {
                 };
                 let mut e = json!({"ev": "push", "s": s + 1, "form": form, "item_form": false, "v_s": canon(v), "panic": false, "n_before": nb, "fresh_same": fresh_same,
                     "idx_num": idx_num, "same_as_prev": prev_idx.map(|p| p == idx).unwrap_or(false),
-                    "read_s": read_s, "read_err": read_err, "stable": stable, "changed": changed,
+                    "bad_utf8": read_s.contains("INVALID_UTF8") || changed.contains("INVALID_UTF8"), "read_s": read_s, "read_err": read_err, "stable": stable, "changed": changed,
                     "used_before": ub, "used_after": ua, "pairs_ok": pairs_ok});
                 if log_v {
                     e["v"] = v.clone();
@@ -355,7 +355,7 @@ fn random_run<W: Write>(d: &mut Driver<W>, name: &str, rng: &mut StdRng, steps: 
                     let (ua, _, pairs_ok) = heap_of(&*t.slot);
                     let mut e = json!({"ev": "push", "s": s + 1, "form": format!("item:{rep}"), "item_form": true, "v_s": canon(&v), "panic": false, "n_before": nb,
                         "idx_num": idx.as_i64().unwrap_or(-1), "same_as_prev": prev_idx.map(|p| p == idx).unwrap_or(false), "fresh_same": true,
-                        "read_s": read_s, "read_err": read_err, "stable": stable, "changed": changed,
+                        "bad_utf8": read_s.contains("INVALID_UTF8") || changed.contains("INVALID_UTF8"), "read_s": read_s, "read_err": read_err, "stable": stable, "changed": changed,
                         "used_before": ub, "used_after": ua, "pairs_ok": pairs_ok});
                     if collapse {
                         e["v"] = v.clone();
